@@ -218,6 +218,9 @@ func (z *normalizer) namedConst(e ast.Expr) bool {
 		id = v
 	case *ast.SelectorExpr:
 		id = v.Sel
+	case *ast.BasicLit:
+		// character literals select like named constants (suffix letters); numbers do not (n == 0 is a test, not a table)
+		return v.Kind == token.CHAR
 	default:
 		return false
 	}
